@@ -97,11 +97,28 @@ fn cmd_hist(a: &Args) -> Ev {
         let rng = Rng::from_parts(&[seed, shard, hi, 0x4849]);
         // wide types: every third history works on the universe that holds a full-depth spine
         let deep = w > 8 && maxlen.is_none() && hi % 3 == 1 && a.u("spine", 1) == 1;
-        let mut g = gen::Gen::new(w, keeps, if deep { uni_spine.clone() } else { uni.clone() }, rng, is_set);
+        // ... and some a random universe (arbitrary lengths and bit positions; a large one now and then)
+        let wide_free = w > 8 && maxlen.is_none() && a.u("random_uni", 1) == 1;
+        let big = wide_free && hi % 12 == 5 && !matches!(prop.as_str(), "C11" | "C12");
+        let rnd = wide_free && (hi % 6 == 2 || big);
+        let this_uni = if rnd {
+            let mut ur = Rng::from_parts(&[seed, shard, hi, 0x554e]);
+            let target = if big { 1500 + ur.below(1500) } else { 120 + ur.below(120) };
+            universe_random(w, &mut ur, target)
+        } else if deep {
+            uni_spine.clone()
+        } else {
+            uni.clone()
+        };
+        if (rnd || deep) && this_uni.len() <= 700 && !lcp_closed(&this_uni) {
+            ev.inconclusive("HARNESS: query universe is not closed under longest common prefix");
+            break;
+        }
+        let mut g = gen::Gen::new(w, keeps, this_uni, rng, is_set);
         if deep {
             g.spine = spine(w);
         }
-        g.flood = hi % 4 == 2 && maxlen.is_none() && a.u("flood", 1) == 1;
+        g.flood = (hi % 4 == 2 || big) && maxlen.is_none() && a.u("flood", 1) == 1;
         g.max_keys = a.u("max_keys", if w == 8 { 36 } else { 28 }) as usize;
         g.canonical_only = match prop.as_str() {
             "C15" | "C11" => hi % 2 == 0,
@@ -141,6 +158,14 @@ fn cmd_hist(a: &Args) -> Ev {
         rj["only_hist"] = json!(hi);
         let mut hs = hist::Hist::new(world, &prop, is_set, g, rj);
         hs.sweep_every = a.u("sweep_every", 1);
+        if big {
+            hs.sweep_every = hs.sweep_every.max(24);
+            ev.count("histories/large_random_universe", 1);
+        } else if rnd {
+            ev.count("histories/random_universe", 1);
+        } else if deep {
+            ev.count("histories/spine_universe", 1);
+        }
         hs.fast = a.u("fast", 0) == 1;
         let mut sample_ops: Vec<String> = Vec::new();
         for _ in 0..hist_len {
